@@ -21,7 +21,7 @@ BUDGET = {"quick": 150, "thorough": 4000}
 SOFT = {"quick": 90.0, "thorough": 1500.0}  # soft deadline per shard (only a cap: the machine may be loaded)
 MIN_KEYS = 30
 REQUIRED = (
-    ["judged:quality:mesh", "judged:quality:sketch", "judged:unclamped-bits", "judged:backport:mesh",
+    ["judged:quality:mesh", "judged:quality:sketch", "links-built-from-live-vertex-arrays", "history:mesh-backported-between-two-optimize-calls", "size:0.0001", "judged:unclamped-bits", "judged:backport:mesh",
      "judged:backport:sketch", "path:rollback", "path:skip-injected", "judged:step-restored:rollback",
      "judged:step-restored:skip", "judged:never-accepted-clamp-in-place", "moved:clamp", "failpoint:fired", "judged:auto-clamp"]
     + [f"judged:manifold:{t}" for t in M.CLAMP_TYPES]
@@ -92,6 +92,18 @@ def fixed_cases(tier):
         for i in range(2):
             out.append(M.gen(rng, {"kind": ["mesh", "sketch"][i], "ctypes": ["free", "line", "plane"], "ltype": "translation",
                                    "calls": 2, "method": M.METHODS[3 - i], "failpoint": False}))
+        # multi-step use of a long-lived optimizer: links holding the live vertex arrays, the mesh re-assembled between calls
+        for i, lt in enumerate(["rotation", "rotation", "translation", "symmetry"]):
+            out.append(M.gen(rng, {"kind": "mesh", "ctypes": ["radial" if lt == "rotation" else "free", "plane"], "ltype": lt,
+                                   "sym": "general" if lt == "symmetry" else None, "calls": 2, "method": M.METHODS[i % 4],
+                                   "failpoint": False, "link_args": "vertex-arrays", "between_calls": "mesh.backport" if i % 2 else None}))
+        for i in range(3):
+            out.append(M.gen(rng, {"kind": "mesh", "ctypes": ["free", "line", "plane"], "ltype": None, "calls": 2,
+                                   "method": M.METHODS[i], "failpoint": False, "between_calls": "mesh.backport"}))
+        # a 0.1 mm model in metres: vertex spacing far below sqrt(TOL)
+        for i in range(4):
+            out.append(M.gen(rng, {"kind": ["mesh", "sketch"][i % 2], "ctypes": ["free", "plane", "line"], "ltype": None,
+                                   "method": M.METHODS[i], "failpoint": False, "size": 1e-4}))
         _FIXED = out
     return _FIXED
 
@@ -293,6 +305,7 @@ def run_case(ctx, case):
     from classy_blocks.optimize.optimizer import MeshOptimizer, SketchOptimizer
 
     kind, size = case["kind"], case["size"]
+    ctx.count(f"size:{size:g}")
     pts = np.array(case["points"], dtype=float)
     nv = len(pts)
     scale = 1.0 + float(np.max(np.abs(pts)))
@@ -354,7 +367,11 @@ def run_case(ctx, case):
     for link in case["links"]:
         a, b = link["leader"], link["follower"]
         try:
-            obj = build_link(link, before[a], before[b])
+            if kind == "mesh" and case.get("link_args") == "vertex-arrays":
+                obj = build_link(link, mesh.vertices[vmap[a]].position, mesh.vertices[vmap[b]].position)
+                ctx.count("links-built-from-live-vertex-arrays")
+            else:
+                obj = build_link(link, before[a], before[b])
             optimizer.add_link(obj)
         except InvalidLinkError as err:
             ctx.evaluated()
@@ -550,7 +567,18 @@ def run_case(ctx, case):
             if moved[v] > 1e-6 * size:
                 ctx.count(f"moved:{t}")
                 ctx.count("moved:clamp")
-            tol = (1e-6 if cls == "sampled" else 1e-7) * size
+            extent = size
+            if t in ("radial", "radial-bounds"):
+                # relative to the circle, not to the cell size: the library rotates by parameter / radius, an unbounded
+                # parameter may wind up ~1e6 rad on a 0.1 mm model, and expm() is good to ~3e-14 * angle of the radius
+                extent = max(size, float(np.linalg.norm(np.array(spec["p0"], dtype=float) - np.array(spec["center"], dtype=float))))
+            tol = (1e-6 if cls == "sampled" else 1e-7) * extent
+            if t in ("radial", "radial-bounds"):
+                try:
+                    wind = abs(float(clamp_obj[v].params[0])) / max(extent, 1e-300)  # ~ the angle the library rotated by
+                except Exception:  # noqa: BLE001
+                    wind = 0.0
+                tol += 3e-13 * wind * extent  # measured: expm() rotations are off the circle by <= 3e-14 * angle * radius
             if dist > tol:
                 ctx.violation(f"off-manifold:{t}", f"{desc}: vertex {v} clamped by {spec} started at {_fmt(before[v])} and ended at "
                               f"{_fmt(after[v])}, {dist:.3e} off its manifold (tolerance {tol:.1e})")
@@ -609,5 +637,11 @@ def run_case(ctx, case):
         return True
 
     for call in range(ncalls):
+        if call and kind == "mesh" and case.get("between_calls") == "mesh.backport":
+            with contextlib.redirect_stdout(sink):
+                mesh.backport()
+            ctx.count("history:mesh-backported-between-two-optimize-calls")
+            if len(mesh.vertices) != nv:
+                raise AssertionError("harness: vertex count changed by backport")
         if not one_call(call, call == ncalls - 1):
             break
